@@ -417,6 +417,11 @@ func (h *harness) checkCase(stDefs []*stageDef, cdefs []*consDef, c caseID) (vs 
 	} else if fail.stage > 0 {
 		hostFail = fail
 	}
+	if c.Twice {
+		// two complete runs of the consumer: twice the tick budget of one run
+		h.limit = 2 * tickLimit
+		defer func() { h.limit = tickLimit }()
+	}
 	f, err := h.compile(src)
 	if err != nil {
 		return []verdict{{what: "pipeline does not generate (or runs closures during Generate)", expected: "a function, zero ticks", got: err.Error()}}, o, a, src, v, ""
